@@ -99,6 +99,12 @@ def enabled_ops(model, U, rich):
                     if all(model.target(u, l) in (None, v) for l in ls):
                         ops.append(["add_edges_elist", [[u, v, list(ls)]]])
     if rich:
+        # a label repeated inside one elist entry (one call must not list it twice)
+        for u in V[:2]:
+            for v in V[:2]:
+                for ls in ([L[0], L[1], L[0]], [L[0], L[0]]):
+                    if all(model.target(u, l) in (None, v) for l in ls):
+                        ops.append(["add_edges_elist", [[u, v, list(ls)]]])
         # two edges in one call
         for (u, v, l), (u2, v2, l2) in [((V[0], V[1], L[0]), (V[1], V[0], L[1])),
                                         ((V[0], V[1], L[0]), (V[0], V[1], L[1]))]:
